@@ -56,6 +56,7 @@ def replay_family(ctx, fam, behs, env=None, race=False, exhaustive_depth=None, b
         if summ is not None:
             for k in ("runs", "behaviours", "mismatches"):
                 total[k] += summ[k]
+            total["debug_steps"] = total.get("debug_steps", 0) + summ.get("debug_steps", 0)
             total["worlds"] = summ["worlds"]
             break
         idx = _progress(ctx, fam)
